@@ -121,6 +121,18 @@ func mutate(rng *Rng, evs []Event) ([]Event, string) {
 		ins = append(ins, c)
 		return append(ins, out[i:]...), "comment"
 	}
+	if rng.P(1, 12) {
+		// a media object whose type may or may not be spellable
+		mt := randAnyMediaType(rng)
+		e := Event{K: "md", D2: []byte(mt), D: []byte{1, 2}}
+		if out[i].K == "md" || out[i].K == "mb" {
+			out[i].D2 = []byte(mt)
+			return out, "media-type"
+		}
+		ins := append([]Event{}, out[:i]...)
+		ins = append(ins, e)
+		return append(ins, out[i:]...), "media-type"
+	}
 	switch rng.Intn(8) {
 	case 0:
 		return append(out[:i], out[i+1:]...), "delete"
